@@ -4,7 +4,7 @@ CONSTANTS
   Wins = {0, 1, 3}
   ConnWins = {1, 4}
   Incs = {1, 3}
-  Mfs = 2
+  Mfs = {2, 4}
   MaxOps = 2
   Defects = {"LostWakeup"}
 SPECIFICATION Spec
